@@ -946,8 +946,11 @@ def gen_buffer_cases(rng, n_random, hist_len):
             out.append(('two-roles', c))
         elif rng.chance(0.08) and kind == 'ps7':
             n = rng.choice([2, 4, 6])
-            out.append(('two-roles', dict(c, entry='db-walls', role='two-roles', form=rng.choice(['int', 'nd', 'intlist']),
-                                          fills=[[float(rng.randint(1, 60)) for _ in range(n)]])))
+            c2 = dict(c, entry='db-walls', role='two-roles', form=rng.choice(['int', 'nd', 'intlist']),
+                      fills=[[float(rng.randint(1, 60)) for _ in range(n)]])
+            c2.pop('walls', None)
+            c2.pop('extra', None)
+            out.append(('two-roles', c2))
         else:
             out.append(('refill', c))
     return out
